@@ -188,7 +188,7 @@ func blockKinds(b *types.WorkObject) string {
 func history(m *mon.M, r *rand.Rand, hIdx, blocks int, replayEvery int, followers []string) {
 	a, err := hnet.NewActivity(r, hnet.Options{})
 	if err != nil {
-		m.Violation("harness-start", err.Error(), nil)
+		m.Inconclusive("harness did not start: " + err.Error())
 		return
 	}
 	defer a.N.Stop()
